@@ -1535,8 +1535,41 @@ func parseHTML(html string) (rows [][]float64, labels []string, err error) {
 
 var titles = []string{"Vegeta Plot", "", "x\n  var data = [[1,2]];", "</script><b>", "ü \"q\" \\", "a;\n  var plot = new Dygraph(container, data, opts);"}
 
+// tinyThresholdCases: thresholds 1, 2, 3, 4 over result sets of a few points.  "At or below the
+// threshold … it is unchanged" holds for thresholds 1 and 2 as well: only a series LONGER than a
+// threshold of 1 or 2 is rejected.  Shapes: one result; 1 OK + 1 ERROR; 2 OK + 2 ERROR; and one
+// series exactly one point longer than the threshold (rejected for 1 and 2, sampled for 3 and 4).
+func tinyThresholdCases(r *kit.Rng, op string) []plotCase {
+	var out []plotCase
+	for _, th := range []int{1, 2, 3, 4} {
+		for shape := 0; shape < 4; shape++ {
+			var errs []bool
+			switch shape {
+			case 0:
+				errs = []bool{r.Chance(0.5)}
+			case 1:
+				errs = []bool{false, true}
+			case 2:
+				errs = []bool{false, true, true, false}
+			default:
+				errs = make([]bool, th+1) // one series just above the threshold
+			}
+			name := attackPool[r.Pick(len(attackPool))]
+			ts := int64(1300000000e9) + r.Range(0, 1e18)
+			var rs []res
+			for i, e := range errs {
+				ts += r.Range(0, 3e9)
+				rs = append(rs, res{name, uint64(i), ts, r.Range(1e5, 2e9), e})
+			}
+			out = append(out, plotCase{Op: op, Threshold: th, Results: shuffled(r, rs, r.Pick(4)), Probe: "tiny_threshold"})
+		}
+	}
+	return out
+}
+
 func plotCmdStream(c *run.Ctx, s *kit.Summary, r *kit.Rng) {
-	total := c.N(40, 400)
+	fixed := tinyThresholdCases(r, "plotcmd")
+	total := c.N(40, 400) + len(fixed)
 	maxResults := 300
 	if c.Tier == "thorough" {
 		maxResults = 3000
@@ -1553,8 +1586,12 @@ func plotCmdStream(c *run.Ctx, s *kit.Summary, r *kit.Rng) {
 		var ops []string
 		for k := 0; k < 20 && done < total; k, done = k+1, done+1 {
 			base := genResults(r, genOpts{maxResults: maxResults, spanCapMs: tszFirstLimit - 1000})
-			pc := plotCase{Op: "plotcmd", Threshold: pickThreshold(r, base), Results: shuffled(r, base, r.Pick(3)),
-				Format: []string{"gob", "csv", "json"}[r.Pick(3)], Files: 1 + r.Pick(3), Title: titles[r.Pick(len(titles))]}
+			pc := plotCase{Op: "plotcmd", Threshold: pickThreshold(r, base), Results: shuffled(r, base, r.Pick(3))}
+			if len(fixed) > 0 {
+				pc, fixed = fixed[0], fixed[1:]
+				s.Count(fmt.Sprintf("plotcmd:tiny-set:threshold=%d", pc.Threshold))
+			}
+			pc.Format, pc.Files, pc.Title = []string{"gob", "csv", "json"}[r.Pick(3)], 1+r.Pick(3), titles[r.Pick(len(titles))]
 			j := job{pc: pc, out: filepath.Join(c.Work, fmt.Sprintf("plot-%d.html", done))}
 			// split the arrival sequence over the files
 			parts := make([][]res, pc.Files)
@@ -1658,11 +1695,21 @@ func plotCLIStream(c *run.Ctx, s *kit.Summary, r *kit.Rng) {
 	if c.Tier == "thorough" {
 		maxResults = 2000
 	}
-	for i := 0; i < c.N(8, 48); i++ {
+	fixed := tinyThresholdCases(r, "plotcli")
+	for i := 0; i < c.N(8, 48)+len(fixed); i++ {
 		variant := i % 4
 		base := genResults(r, genOpts{maxResults: maxResults, spanCapMs: tszFirstLimit - 1000})
 		th := pickThreshold(r, base)
 		format := []string{"gob", "csv", "json"}[r.Pick(3)]
+		probe := ""
+		if i >= c.N(8, 48) { // thresholds 1…4 over a handful of results, through the real flags
+			f := fixed[i-c.N(8, 48)]
+			base, th, probe = f.Results, f.Threshold, f.Probe
+			if variant == 2 {
+				variant = 0 // variant 2 omits -threshold
+			}
+			s.Count(fmt.Sprintf("plotcli:tiny-set:threshold=%d", th))
+		}
 		if variant == 2 { // no -threshold flag: the documented default of 4000 applies
 			th = 4000
 			if i%8 == 2 { // … and one series is longer than that
@@ -1675,7 +1722,7 @@ func plotCLIStream(c *run.Ctx, s *kit.Summary, r *kit.Rng) {
 				}
 			}
 		}
-		pc := plotCase{Op: "plotcli", Threshold: th, Results: shuffled(r, base, r.Pick(3)), Format: format}
+		pc := plotCase{Op: "plotcli", Threshold: th, Results: shuffled(r, base, r.Pick(3)), Format: format, Probe: probe}
 		args := []string{"plot"}
 		outPath := filepath.Join(c.Work, fmt.Sprintf("cli-%d.html", i))
 		title := titles[r.Pick(len(titles))]
